@@ -67,6 +67,15 @@ func writeSignature(key *strings.Builder, signature hotstuff.QuorumSignature) {
 	participants.ForEach(func(id hotstuff.ID) {
 		_, _ = key.Write(id.ToBytes())
 	})
+	// ToBytes of a multi-signature concatenates signatures of variable length;
+	// their sizes tell where one signer's signature ends and the next begins.
+	if sized, ok := signature.(interface{ Sizes() []int }); ok {
+		for _, size := range sized.Sizes() {
+			var length [4]byte
+			binary.LittleEndian.PutUint32(length[:], uint32(size))
+			_, _ = key.Write(length[:])
+		}
+	}
 	_, _ = key.Write(signature.ToBytes())
 }
 
